@@ -16,7 +16,8 @@ ORDER = ["COMPUTATION", "COMMUNICATION", "MEMORY"]
 CONFIGS_Q = [(1, 0.8, False), (1, 1.0, True), (2, 0.5, True), (2, 0.8, False)]
 CONFIGS_T = [(k, q, m) for k in (1, 2, 3) for q in (0.5, 0.8, 1.0) for m in (False, True)]
 BOUNDS = {
-    "quick": "1 rank x 1..3 device activities over 2 computation names, 2 communication names, 1 memory name (all "
+    "quick": "user-annotation breakdown (same aggregator, allowlist on/off, CPU and GPU annotations) on 1..3 annotations "
+             "of 3 names; kernel breakdown: 1 rank x 1..3 device activities over 2 computation names, 2 communication names, 1 memory name (all "
              "multisets), 4 (num_kernels, duration_ratio, include_memory) configurations; 2 ranks x 2 activities for "
              "2 configurations; ts,dur symbolic Int",
     "thorough": "1 rank x 1..4 activities (all multisets over 5 names) x 18 configurations; 2 ranks x 2 activities; "
@@ -34,7 +35,29 @@ ASSUMPTIONS = ["integer timestamps in [0,2^40]", "round(x,1) modelled as within 
 STUBS = ["hta.common.trace_parser.parse_trace_dict", "Trace._validate_trace_files", "plotly", "logging"]
 
 
+ANNO = {"f": "fwd_pass", "b": "bwd_pass", "o": "optimizer_step"}
+
+
+def anno_skeletons(tier):
+    out = []
+    words = ["f", "fb", "ff", "fbo", "ffb"] if tier == "quick" else ["f", "fb", "ff", "fbo", "ffb", "fbbo", "ffbo", "fboo"]
+    for w in words:
+        for k in (1, 2):
+            for allow in (None, ["bwd"]):
+                if tier == "quick" and len(w) == 3 and k == 2 and allow is None:
+                    continue
+                for gpu in ((True,) if tier == "quick" and len(w) > 1 else (True, False)):
+                    out.append({"id": f"anno-{w}-k{k}-allow{0 if allow is None else 1}-gpu{int(gpu)}", "fam": "anno", "word": w,
+                                "params": {"num_kernels": k, "duration_ratio": 0.8 if k == 1 else 1.0, "allow": allow,
+                                           "gpu": gpu}})
+    return out
+
+
 def skeletons(tier):
+    return kernel_skeletons(tier) + anno_skeletons(tier)
+
+
+def kernel_skeletons(tier):
     out = []
     if tier == "quick":
         for n in range(1, 3):
@@ -86,7 +109,65 @@ def label_of(combo):
     return " overlapping ".join(combo)
 
 
+def run_anno(ctx):
+    """the user-annotation breakdown shares _aggr_gpu_kernel_time (incl. the allowlist)"""
+    from symx.engine import smax, smin
+    sk, P = ctx.sk, ctx.params
+    cat = "gpu_user_annotation" if P["gpu"] else "user_annotation"
+    ev = [TG.op("aten::mm", "$op_ts", "$op_dur")]
+    A = []
+    for i, ch in enumerate(sk["word"]):
+        if P["gpu"]:
+            ev.append({"ph": "X", "cat": cat, "name": ANNO[ch], "pid": 0, "tid": 7, "ts": f"$a{i}_ts", "dur": f"$a{i}_dur",
+                       "args": {"External id": 5 + i}})
+        else:
+            ev.append(TG.op(ANNO[ch], f"$a{i}_ts", f"$a{i}_dur", cat=cat, tid=300 + i))
+        A.append((ANNO[ch], f"$a{i}_dur"))
+    events = {0: ctx.val(ev)}
+    A = [(n, ctx.val(d)) for n, d in A]
+    ta = ctx.open(events)
+    df = ta.get_gpu_user_annotation_breakdown(use_gpu_annotation=P["gpu"], visualize=False,
+                                              duration_ratio=P["duration_ratio"], num_kernels=P["num_kernels"],
+                                              allowlist_patterns=P["allow"])
+    ctx.prove(df is not None, "annotation-table-returned", None)
+    if df is None:
+        return
+    names = [str(x) for x in ctx.cells(df["name"])]
+    col = {c: ctx.cells(df[c]) for c in ["sum (us)", "max (us)", "min (us)", "mean (us)"]}
+    ctx.prove(len(set(names)) == len(names) and all(int(r) == 0 for r in ctx.cells(df["rank"])), "anno-rows-unique", None)
+    tot = 0
+    for _, d in A:
+        tot = tot + d
+    rep = 0
+    for v in col["sum (us)"]:
+        rep = rep + v
+    ctx.prove(rep == tot, "anno-sums-conserved", None)
+    allowed = {n for n, _ in A if P["allow"] and any(p in n for p in P["allow"])}
+    named = [j for j, n in enumerate(names) if n != "others"]
+    ctx.prove(len([j for j in named if names[j] not in allowed]) <= P["num_kernels"], "anno-named-rows-le-num-kernels",
+              {"names": names})
+    distinct = {n for n, _ in A}
+    if len(distinct) > P["num_kernels"]:
+        ctx.prove(allowed <= set(names), "allowlisted-names-keep-their-row", {"names": names, "allowed": sorted(allowed)})
+    for j in named:
+        ds = [d for n, d in A if n == names[j]]
+        ctx.prove(len(ds) > 0, "anno-named-row-exists", {"name": names[j]})
+        if not ds:
+            continue
+        s0, mx, mn = 0, ds[0], ds[0]
+        for x in ds:
+            s0, mx, mn = s0 + x, smax(mx, x), smin(mn, x)
+        ctx.prove(sand(col["sum (us)"][j] == s0, col["max (us)"][j] == mx, col["min (us)"][j] == mn), "anno-named-row-stats",
+                  {"name": names[j]})
+        ctx.prove(col["mean (us)"][j] * len(ds) == s0 if ctx.mode == "sym" else abs(col["mean (us)"][j] * len(ds) - s0)
+                  <= 1e-6 * len(ds), "anno-named-row-mean", {"name": names[j]})
+    if ctx.mode == "sym":
+        ctx.nontrivial(True)
+
+
 def run(ctx):
+    if ctx.sk.get("fam") == "anno":
+        return run_anno(ctx)
     ranks, kinfo = build(ctx.sk)
     events = {r: ctx.val(ev) for r, ev in ranks.items()}
     P = ctx.params
